@@ -258,12 +258,23 @@ def v_ion_near_acid(items):
 
 # ---------------------------------------------------------------- builder
 
+def v_drop_oxt(items):
+    return [x for x in items if not (x[0] == 'A' and x[1].name.strip() == 'OXT')]
+
+
 def _mk(fam, tag, items, inputs, extra_tags=()):
     if items is None:
         return
     if not any(k == 'L' and it.startswith('MODEL') for k, it in items):
         items = finish(items)
     text = P.render(items)
+    if tag == 'crlf':
+        # DOS line endings: a path is read with universal newlines, a
+        # StringIO hands the '\r' through to the parser
+        text = text.replace('\n', '\r\n')
+    elif tag == 'bter':
+        # unpadded TER records as written by PDB2PQR/GROMACS
+        text = text.replace('TER   \n', 'TER\n')
     natoms = sum(1 for k, _ in items if k == 'A')
     if natoms < 4:
         return
@@ -286,6 +297,8 @@ def _family(fam, base, inputs, nvar, salt):
         ('oxt', lambda: v_toggle_oxt(base)),
         ('unk', lambda: v_unknown_element(base)),
         ('ion', lambda: v_ion_near_acid(base)),
+        ('crlf', lambda: list(base)),
+        ('bter', lambda: v_drop_oxt(base)),
     ]
     for j in range(nvar):
         tag, fn = makers[(salt + j * 3) % len(makers)]
